@@ -34,6 +34,7 @@ CLAUSES = {
     "UnstableRunReportedAsSuccess": ("C17",),
     "StepNonNegative": ("C04", "C06"),
     "StepWithinFixedStep": ("C04",),
+    "FixedStepIsConfiguredStep": ("C04", "C06", "C20"),
     "StepNotPastTf": ("C04",),
     "RejectedStepRestoresState": ("C04", "C17"),      # C17: no partially updated state is presented as a solution
     "AcceptedStepWithinTol": ("C04",),
